@@ -1,5 +1,6 @@
 """C46 -- distfile cleaning never deletes a distfile that must be kept (DESIGN.md section 4, C46)."""
 import itertools
+import io
 import os
 import random
 import types
@@ -116,24 +117,35 @@ def enum_cleaning(seed):
             pkgs = [_Pkg(c, f, r) for c, (f, r) in sorted(tree.items())]
             inst = [_Pkg(c, f, ()) for c, f in sorted(installed.items())]
             repo = _Repo(pkgs)
-            for target, excl, (opt_i, opt_e, opt_f), size in itertools.product((None, names[0], names[-1], "foo*"), (None, names[1]), itertools.product((False, True), repeat=3), (None, 1000)):
+            # exclusions as the command line gives them: -x patterns, an -X file (last line with or without a line end is the user's business:
+            # here without, so that no empty pattern arises), or both; the namespace is built by pclean's own parse hooks
+            excl_forms = (None, ([names[1]], None), (None, names[1]), (None, names[2] + "\n" + names[1]), ([names[2]], names[1]))
+            for target, excl_form, (opt_i, opt_e, opt_f), size in itertools.product((None, names[0], names[-1], "foo*"), excl_forms, itertools.product((False, True), repeat=3), (None, 1000)):
                 cases += 1
                 filters = pclean.Filters()
                 if size is not None:
                     filters.append(lambda x, size=size: os.stat(x).st_size < size)
-                ns = types.SimpleNamespace(domain=types.SimpleNamespace(distdir=distdir, all_installed_repos=inst, source_repos=[]), repo=repo,
-                                           restrict=parse_match(target) if target else None, exclude_restrict=parse_match(excl) if excl else None,
+                excl_patterns = [] if excl_form is None else list(excl_form[0] or []) + (excl_form[1].split("\n") if excl_form[1] is not None else [])
+                excl = ", ".join(excl_patterns) or None
+                ns = types.SimpleNamespace(domain=types.SimpleNamespace(distdir=distdir, all_installed_repos=inst, source_repos=[], all_source_repos_raw=()), repo=repo,
+                                           restrict=[], targets=[target] if target else [], pkgsets=None, excludes=list(excl_form[0]) if excl_form and excl_form[0] else None,
+                                           exclude_file=io.StringIO(excl_form[1]) if excl_form and excl_form[1] is not None else None,
                                            exclude_installed=opt_i, exclude_exists=opt_e, exclude_fetch_restricted=opt_f, file_filters=filters)
                 model = {"seed": s, "tree": {k: [list(v[0]), list(v[1])] for k, v in tree.items()}, "installed": {k: list(v) for k, v in installed.items()}, "distdir": sorted(present),
-                         "target": target, "exclude": excl, "installed_opt": opt_i, "exists_opt": opt_e, "fetch_restricted_opt": opt_f, "size_below": size}
+                         "target": target, "exclude": excl, "exclude_on_command_line": excl_form[0] if excl_form else None, "exclude_file_text": excl_form[1] if excl_form else None,
+                         "installed_opt": opt_i, "exists_opt": opt_e, "fetch_restricted_opt": opt_f, "size_below": size}
                 try:
+                    pclean._setup_shared_opts(ns)
+                    pclean._setup_restrictions(ns)
                     pclean._dist_validate_args(None, ns)
                     doomed = sorted(os.path.basename(f) for _fn, f in ns.remove)
-                except Exception as e:
+                except (Exception, SystemExit) as e:
                     if len(fails) < 5:
                         fails.append({"model": model, "detail": f"pclean dist hook raised {type(e).__name__}: {e} (target={target}, -I={opt_i} -E={opt_e} -f={opt_f}, exclude={excl})"})
                     continue
-                matched = [p for p in pkgs if ns.restrict.match(p)] if target else pkgs
+                t_restrict = parse_match(target) if target else None
+                x_restricts = [parse_match(x) for x in excl_patterns]
+                matched = [p for p in pkgs if t_restrict.match(p)] if target else pkgs
                 keep_reason = {}
                 if opt_i:
                     for p in inst:
@@ -150,7 +162,7 @@ def enum_cleaning(seed):
                                 keep_reason.setdefault(f, f"used by fetch-restricted {p.cpvstr} (-f)")
                 if excl:
                     for p in pkgs:
-                        if ns.exclude_restrict.match(p):
+                        if any(x.match(p) for x in x_restricts):
                             for f in p.distfiles:
                                 keep_reason.setdefault(f, f"used by {p.cpvstr}, matched by the exclusion pattern")
                 probs = []
@@ -170,7 +182,7 @@ def enum_cleaning(seed):
     finally:
         shutil.rmtree(scratch, ignore_errors=True)
     return {"name": "C46.dist_cleaning.bounded_enumeration", "bound": f"{60 if thorough else 20} seeded universes (4..6 packages incl. name-colliding foo / foo-bin / libfoo, fetch-restricted packages, installed sets, stray and outdated files) x "
-            "4 targets x 2 exclusion patterns x 8 combinations of -I -E -f x 2 size filters; removal list compared with the keep rules", "cases": cases, "failures": fails}
+            "4 targets x 5 exclusion forms (none, -x, an -X file of one or two lines, both; through pclean's own parse hooks) x 8 combinations of -I -E -f x 2 size filters; removal list compared with the keep rules", "cases": cases, "failures": fails}
 
 
 # ---------------------------------------------------------------- the removal runner under contract ----
@@ -259,7 +271,7 @@ def t_file_filters(ex):
 
 
 def tasks():
-    return [Task("C46.dist_cleaning", None, [(PC, "_dist_validate_args")], enumerate=enum_cleaning),
+    return [Task("C46.dist_cleaning", None, [(PC, "_dist_validate_args"), (PC, "_setup_shared_opts"), (PC, "_setup_restrictions")], enumerate=enum_cleaning),
             Task("C46._remove", t_remove, [(PC, "_remove")]),
             Task("C46.file_filters", t_file_filters, [(PC, "_setup_file_opts"), (PC, "Filters.run"), (PC, "Filters.append")])]
 
